@@ -67,41 +67,52 @@ theorem actOf_ok (v : Variant) {pc : Pc} (h : PcOK pc) : ActOK (actOf v pc) := b
         simpa using this
   | _ => simp only [actOf] <;> (repeat' split) <;> trivial
 
-theorem resume_ok (v : Variant) {pc : Pc} {r : Ret} (h : PcOK pc) (hr : RetOK r) : PcOK (resume v pc r) := by
-  unfold resume
-  split <;> (try (apply pcOK_of_nil; (repeat' split) <;>
-    (first | rfl | simp only [mkOn_stack, walkOn_stack]); done))
-  · -- cEnter: first activation
-    simp only [PcOK, stackOf, StackOK, FrameOK, and_true]
-    simpa [RetOK] using hr
-  · -- cDir: one step of copyDir
-    rename_i d n fr stack
-    have hfr : FrameOK none fr := h.1
-    have hst : StackOK (some fr.nm) stack := h.2
-    simp only [FrameOK, Option.toList, List.nil_append] at hfr
-    split
-    · rename_i cn co todo' c htodo
-      refine ⟨?_, hst⟩
-      simp only [FrameOK, Option.toList, List.nil_append, List.map_append, List.map_cons, List.map_nil]
+theorem copyStep_ok {d : Oid} {n : Name} {fr : Frame} {stack : List Frame} {r : Ret}
+    (h : StackOK none (fr :: stack)) (hr : RetOK r) : PcOK (copyStep d n fr stack r) := by
+  have hfr : FrameOK none fr := h.1
+  have hst : StackOK (some fr.nm) stack := h.2
+  simp only [FrameOK, Option.toList, List.nil_append] at hfr
+  unfold copyStep
+  split
+  · rename_i cn co todo' c htodo
+    refine ⟨?_, hst⟩
+    simp only [FrameOK, Option.toList, List.nil_append, List.map_append, List.map_cons, List.map_nil]
+    rw [htodo] at hfr
+    simpa [List.append_assoc] using hfr
+  · rename_i cn co todo' l htodo
+    refine ⟨?_, ?_, hst⟩
+    · simp only [FrameOK, Option.toList, List.nil_append, List.map_nil]
+      simpa [RetOK] using hr
+    · simp only [FrameOK, Option.toList]
       rw [htodo] at hfr
-      simpa [List.append_assoc] using hfr
-    · rename_i cn co todo' l htodo
-      refine ⟨?_, ?_, hst⟩
-      · simp only [FrameOK, Option.toList, List.nil_append, List.map_nil]
-        simpa [RetOK] using hr
-      · simp only [FrameOK, Option.toList]
-        rw [htodo] at hfr
-        simpa using hfr
-    · rename_i c htodo
-      cases stack with
-      | nil => exact pcOK_of_nil rfl
-      | cons par stack' =>
-        simp only
-        have hpar : FrameOK (some fr.nm) par := hst.1
-        refine ⟨?_, hst.2⟩
-        simp only [FrameOK, Option.toList, List.nil_append, List.map_append, List.map_cons, List.map_nil] at hpar ⊢
-        simpa [List.append_assoc] using hpar
+      simpa using hfr
+  · rename_i c htodo
+    cases stack with
+    | nil => exact pcOK_of_nil rfl
+    | cons par stack' =>
+      simp only
+      have hpar : FrameOK (some fr.nm) par := hst.1
+      refine ⟨?_, hst.2⟩
+      simp only [FrameOK, Option.toList, List.nil_append, List.map_append, List.map_cons, List.map_nil] at hpar ⊢
+      simpa [List.append_assoc] using hpar
+  · exact pcOK_of_nil rfl
+
+theorem resume_ok (v : Variant) {pc : Pc} {r : Ret} (h : PcOK pc) (hr : RetOK r) : PcOK (resume v pc r) := by
+  cases pc with
+  | cEnter d n src =>
+    simp only [resume]
+    split
+    · simp only [PcOK, stackOf, StackOK, FrameOK, and_true]
+      simpa [RetOK] using hr
     · exact pcOK_of_nil rfl
+  | cDir d n stack =>
+    simp only [resume]
+    cases stack with
+    | nil => exact pcOK_of_nil rfl
+    | cons fr stack' => exact copyStep_ok h hr
+  | _ =>
+    simp only [resume] <;> apply pcOK_of_nil <;> (repeat' split) <;>
+      first | rfl | simp only [mkOn_stack, walkOn_stack]
 
 /-! ### the shape of one step -/
 
@@ -211,5 +222,26 @@ theorem inv_step {v : Variant} {s s' : State} {t : Tid} (hi : Inv s) (hs : step 
 theorem inv_reachable (v : Variant) (progs : List (List Op)) {s : State}
     (h : LTS.Reachable (sys v progs) s) : Inv s :=
   LTS.inv_of_init_step (sys v progs) Inv (inv_init progs) (fun _ _ _ hi hs => inv_step hi hs) s h
+
+/-- `ReadFile`'s critical section returns a complete value of the file -/
+theorem read_complete_step {v : Variant} {s s' : State} {t : Tid} {th th' : Thread} {f : Oid} {x : Data}
+    (hi : Inv s) (hth : s.threads[t]? = some th) (hpc : th.pc = .rData f) (hs : step v s t = some s')
+    (hth' : s'.threads[t]? = some th') (hres : th'.pc = .fin (.data x)) :
+    ∃ ff, getFile s.heap f = some ff ∧ ff.lock = none ∧ x ∈ ff.committed := by
+  obtain ⟨th0, hth0, hk⟩ := step_cases hs
+  rw [hth] at hth0; cases hth0
+  have hlt : t < s.threads.length := (List.getElem?_eq_some_iff.1 hth).1
+  cases hk with
+  | start op rest hpc' _ => rw [hpc] at hpc'; cases hpc'
+  | fin r hpc' => rw [hpc] at hpc'; cases hpc'
+  | act h' r _ _ hap =>
+    simp only [List.getElem?_set_self hlt, Option.some.injEq] at hth'
+    subst hth'
+    simp only [hpc, resume] at hres
+    rw [hpc] at hap
+    simp only [actOf] at hap
+    cases r <;> simp only [reduceCtorEq, Pc.fin.injEq, Res.data.injEq] at hres
+    subst hres
+    exact (applyAct_getData hi.files hap).2
 
 end Goat.MemFSConc
